@@ -257,7 +257,7 @@ impl<'c, KD: Kind, const N: usize> MapEng<'c, KD, N> {
             if want.is_some() {
                 cx.bump(S::lookups_hit);
             }
-            let qo = KD::qo(k);
+            let qo = KD::qo_alt(k, c as usize >> 1);
             let probe = KD::key(k);
             // (present, val, vid, value address, key id, key address)
             type Got = Option<(u32, u32, usize, u32, usize)>;
@@ -319,7 +319,7 @@ impl<'c, KD: Kind, const N: usize> MapEng<'c, KD, N> {
             let Some(slot) = self.slots[w].as_mut() else { return };
             let cx = &mut *self.cx;
             let want = slot.model.get(&k).copied();
-            let qo = KD::qo(k);
+            let qo = KD::qo_alt(k, c as usize >> 1);
             let probe = KD::key(k);
             let m = &mut slot.c.m;
             // (val, vid, kid)
